@@ -241,3 +241,48 @@ pub fn table_get(entries: &[(Vec<u8>, u64, u8, Vec<u8>)], block_size: usize, use
         Err(e) => format!("error:{}", e),
     }
 }
+
+// ---- whole database histories (public API + the crate's own test hooks) ----------------------
+use crate::WriteOptions;
+use super::DB;
+
+pub enum DbOp {
+    Put(Vec<u8>, Vec<u8>),
+    Delete(Vec<u8>),
+    /// flush the memtable to a table file
+    Flush,
+    /// close and reopen; the flag is `reuse_log_files`
+    Reopen(bool),
+    /// manual compaction of the whole key range
+    CompactAll,
+}
+
+/// Runs the history on an in-memory file system and returns, after the last step, what `get`
+/// returns for each key of interest ("value:<hex>" / "notfound" / "error:...").
+pub fn run_history(ops: &[DbOp], keys: &[Vec<u8>]) -> Vec<String> {
+    let mut options = DbOptions::with_memory_env();
+    options.create_if_missing = true;
+    let mut db = Some(DB::open(options.clone()).unwrap());
+    for op in ops {
+        match op {
+            DbOp::Put(k, v) => db.as_ref().unwrap().put(WriteOptions::default(), k.clone(), v.clone()).unwrap(),
+            DbOp::Delete(k) => db.as_ref().unwrap().delete(WriteOptions::default(), k.clone()).unwrap(),
+            DbOp::Flush => db.as_ref().unwrap().force_memtable_compaction().unwrap(),
+            DbOp::CompactAll => db.as_ref().unwrap().compact_range(None..None),
+            DbOp::Reopen(reuse) => {
+                drop(db.take());
+                options.reuse_log_files = *reuse;
+                options.create_if_missing = false;
+                db = Some(DB::open(options.clone()).unwrap());
+            }
+        }
+    }
+    let d = db.as_ref().unwrap();
+    keys.iter()
+        .map(|k| match d.get(ReadOptions::default(), k) {
+            Ok(v) => format!("value:{}", v.iter().map(|b| format!("{:02x}", b)).collect::<String>()),
+            Err(crate::RainDBError::KeyNotFound) => "notfound".to_string(),
+            Err(e) => format!("error:{}", e),
+        })
+        .collect()
+}
